@@ -246,6 +246,22 @@ CLAIMED["C10"] = (
     "Trusted: Lean kernel; standard axioms; harness (SIP evaluator, dense sample, allowance: 2x requested error, 5x recorded error as in the method's own double-sampling check); astropy.wcs/wcslib.",
     "Lean 4 proofs (induction over the degree search; polynomial identity over lists of monomials) + exact scripted correspondence + end-to-end dense-sample comparison", "DESIGN.md §6 C10")
 
+CLAIMED["C20"] = (
+    "Lean 4 theorems: fitswcs_linear's composition translation | rotation | scaling (scaling only without CD) is the FITS Paper I formula "
+    "x_i = s_i sum_j m_ij (p_j + 1 - r_j) on 0-based pixels for CD and PC+CDELT forms, for all values (fitswcs_linear_eq_fits), and the "
+    "opposite composition order is a different map (order_matters); over the reals, with astropy's Euler-angle convention for "
+    "RotateNative2Celestial written out (Rz(psi).Rx(theta).Rz(phi)), the native pole - the reference point of every zenithal projection - "
+    "is sent to the unit vector of the fiducial for EVERY lon, lat, lon_pole (fiducial_anchored_zenithal); the native origin of "
+    "cylindrical-type projections is sent to (lon+180, 90-lat), so the full statement fails there (nonzenithal_image, "
+    "nonzenithal_not_anchored = recorded finding D33); the FITS default LONPOLE rule (lonpole_zenithal); a prepended transform moves the "
+    "reference pixel to the pre-image of the origin (prepended_origin). PARTIAL: wcslib's projections, celprm and the Levenberg-Marquardt "
+    "fit of wcs_from_points are exercised, not modelled. Tied to gwcs by exact correspondence of fitswcs_linear (dyadic headers) and of "
+    "the lon_pole chosen by wcs_from_fiducial with the default rule and with wcslib over 24 projections x pointings; anchoring measured "
+    "on the real WCS (composite sky+spectral, prepended transforms, bounding boxes); make_fitswcs_transform vs wcslib on fractional "
+    "0-based pixels; wcs_from_points recovery on points generated by a WCS of the fitted form with sky stored in deg/hourangle/rad.",
+    "Trusted: Lean kernel; standard axioms (Mathlib real analysis); harness; astropy.wcs/wcslib as the FITS reference; astropy's rotation convention as transcribed.",
+    "Lean 4 proofs (ring identities over Q; trigonometric identity over R) + exact correspondence of the linear part and pole longitude + measured comparison with wcslib", "DESIGN.md §6 C20")
+
 NOT_YET = "check not built yet in this round; will be claimed once its Lean model, theorems and correspondence run green"
 
 
